@@ -18,12 +18,12 @@ Log == ndJsonDeserialize(IOEnv.VERIF_TRACE)
 VARIABLES l, h
 Ev == Log[l]
 Starts == {i \in 1..Len(Log) : Log[i].ev = "reset"}
-ScenOf(e) == [start |-> e.start, kind |-> e.kind, t |-> e.t, o |-> e.o, gc |-> (e.gc = 1)]
+ScenOf(e) == [start |-> e.start, kind |-> e.kind, t |-> e.t, o |-> e.o, gc |-> (e.gc = 1), f |-> NoF]
 DInit == \E i \in Starts :
            /\ h = i /\ l = i + 1
            /\ fs = StartFS(Log[i].start)
            /\ pr = FreshProc(OpProg(ScenOf(Log[i])))
-           /\ ctl = [phase |-> "run", crashes |-> 0, scen |-> ScenOf(Log[i]), res |-> ""]
+           /\ ctl = [phase |-> "run", crashes |-> 0, scen |-> ScenOf(Log[i]), res |-> "", fol |-> FALSE]
 
 ClsMatch(lc, ec) == lc = ec \/ (lc = "casman" /\ ec = "cas")
 \* objects whose digest the harness does not know (referrer lists written by regclient) are logged as "x..."
